@@ -36,8 +36,10 @@ import (
 func init() { hx.Register("C33", Run) }
 
 const (
-	classDup   = "crosschain-header:duplicate-bookkeeper"
-	classUnder = "crosschain-header:under-two-thirds"
+	classDup          = "crosschain-header:duplicate-bookkeeper"
+	classUnder        = "crosschain-header:under-two-thirds"
+	classWrongEpoch   = "crosschain-header:wrong-epoch-peer-set"
+	classValidRefused = "crosschain-header:valid-refused"
 )
 
 // replayCase is the replay-file input: a history of committed contract calls, then one header.
@@ -60,22 +62,26 @@ func hasDupKeys(keys []keypair.PublicKey) bool {
 	return false
 }
 
-// signingPeers counts, independently of VerifyHeader, the stored peers of the configuration in
-// force below hdr.Height that have a valid signature on the header hash among hdr.SigData.
-func (w *world) signingPeers(hdr *ccom.Header) (signers []string, total int, ok bool) {
+// governing is the independent specification of "the consensus peers of that chain" for a
+// header: the peer set announced at the greatest stored key height strictly below the header's
+// height (the rule the code documents), whatever the order of the stored list.
+func (w *world) governing(chain uint64, height uint32) (*header_sync.ConsensusPeers, uint32, bool) {
 	best := int64(-1)
-	for _, v := range w.keyHeights(hdr.ChainID) {
-		if v < hdr.Height && int64(v) > best {
+	for _, v := range w.keyHeights(chain) {
+		if v < height && int64(v) > best {
 			best = int64(v)
 		}
 	}
 	if best < 0 {
 		return nil, 0, false
 	}
-	cp, found := w.peersAt(hdr.ChainID, uint32(best))
-	if !found {
-		return nil, 0, false
-	}
+	cp, found := w.peersAt(chain, uint32(best))
+	return cp, uint32(best), found
+}
+
+// signersIn lists the members of one stored peer set that have a valid signature on the header
+// hash among hdr.SigData (signature.Verify, peer by peer).
+func signersIn(cp *header_sync.ConsensusPeers, hdr *ccom.Header) (signers []string) {
 	hash := hdr.Hash()
 	for id := range cp.PeerMap {
 		pk, err := vconfig.Pubkey(id)
@@ -90,7 +96,68 @@ func (w *world) signingPeers(hdr *ccom.Header) (signers []string, total int, ok 
 		}
 	}
 	sort.Strings(signers)
-	return signers, len(cp.PeerMap), true
+	return signers
+}
+
+// signingPeers counts, independently of VerifyHeader, the peers of the governing set that have a
+// valid signature on the header hash among hdr.SigData.
+func (w *world) signingPeers(hdr *ccom.Header) (signers []string, total int, ok bool) {
+	cp, _, found := w.governing(hdr.ChainID, hdr.Height)
+	if !found {
+		return nil, 0, false
+	}
+	return signersIn(cp, hdr), len(cp.PeerMap), true
+}
+
+// otherEpochSatisfied: some OTHER stored peer set of the chain has two thirds of its members
+// signing (the header would have been right for a superseded or not-yet-governing set).
+func (w *world) otherEpochSatisfied(hdr *ccom.Header) (uint32, bool) {
+	_, gov, _ := w.governing(hdr.ChainID, hdr.Height)
+	for _, v := range w.keyHeights(hdr.ChainID) {
+		if v == gov {
+			continue
+		}
+		if cp, ok := w.peersAt(hdr.ChainID, v); ok && len(cp.PeerMap) > 0 && 3*len(signersIn(cp, hdr)) >= 2*len(cp.PeerMap) {
+			return v, true
+		}
+	}
+	return 0, false
+}
+
+// validlySigned: by the property's own terms the header must be accepted: a governing set exists,
+// the bookkeepers are distinct members of it, they are at least two thirds of it, and the first
+// len(bookkeepers) signatures are valid signatures of the header hash by pairwise distinct
+// bookkeepers (one each).  (Props/C33.v c33_honest_accepted is the model-side counterpart.)
+func (w *world) validlySigned(hdr *ccom.Header) bool {
+	cp, _, ok := w.governing(hdr.ChainID, hdr.Height)
+	if !ok || hasDupKeys(hdr.Bookkeepers) {
+		return false
+	}
+	n := len(hdr.Bookkeepers)
+	for _, k := range hdr.Bookkeepers {
+		if _, in := cp.PeerMap[vconfig.PubkeyID(k)]; !in {
+			return false
+		}
+	}
+	if 3*n < 2*len(cp.PeerMap) || len(hdr.SigData) < n {
+		return false
+	}
+	hash := hdr.Hash()
+	used := map[int]bool{}
+	for i := 0; i < n; i++ {
+		hit := -1
+		for j, k := range hdr.Bookkeepers {
+			if !used[j] && signature.Verify(k, hash[:], hdr.SigData[i]) == nil {
+				hit = j
+				break
+			}
+		}
+		if hit < 0 {
+			return false
+		}
+		used[hit] = true
+	}
+	return true
 }
 
 // checkAccepted is the property oracle for one header the contract accepted (state = the
@@ -110,12 +177,18 @@ func (w *world) judge(setup []opSpec, b *built, via string, signers []string, to
 	w.c.Count(fmt.Sprintf("accepted:signers=%d/peers=%d", len(signers), total))
 	if 3*len(signers) < 2*total {
 		class := classUnder
+		got := map[string]interface{}{"signing_peers": signers, "peer_set_size": total, "bookkeepers_listed": len(b.hdr.Bookkeepers)}
 		if hasDupKeys(b.hdr.Bookkeepers) {
 			class = classDup
+		} else if kh, yes := w.otherEpochSatisfied(b.hdr); yes {
+			class = classWrongEpoch
+			_, gov, _ := w.governing(b.hdr.ChainID, b.hdr.Height)
+			got["governing_key_height"] = gov
+			got["satisfied_key_height"] = kh
+			got["stored_key_heights"] = w.keyHeights(b.hdr.ChainID)
 		}
 		w.c.Fail(class, "header accepted ("+via+") with valid signatures of fewer than two thirds of the distinct stored consensus peers",
-			in, map[string]interface{}{"signing_peers": signers, "peer_set_size": total, "bookkeepers_listed": len(b.hdr.Bookkeepers)},
-			fmt.Sprintf("at least %d distinct signing peers", (2*total+2)/3))
+			in, got, fmt.Sprintf("at least %d distinct signing peers of the governing set", (2*total+2)/3))
 	}
 }
 
@@ -195,6 +268,10 @@ func (w *world) probe(setup []opSpec, sp hdrSpec, kind string) {
 	}
 	if ca == 0 {
 		w.checkAccepted(setup, b, "VerifyHeader")
+	} else if w.validlySigned(hdr) {
+		_, gov, _ := w.governing(sp.Chain, sp.Height)
+		c.Fail(classValidRefused, "VerifyHeader refused a header signed by two thirds of the distinct governing peers",
+			replayCase{Setup: setup, Probe: &sp}, map[string]interface{}{"error": fmt.Sprint(verr), "governing_key_height": gov, "stored_key_heights": w.keyHeights(sp.Chain)}, "accepted")
 	}
 	if cb == 0 && stored && !skipped && ca != 0 {
 		w.checkAccepted(setup, b, "SyncBlockHeader")
@@ -454,6 +531,10 @@ func Run(c *hx.Ctx) {
 	nScen := c.N(70, 600)
 	for i := 0; i < nScen; i++ {
 		scenario(c, pool)
+	}
+	nEpochs := c.N(18, 150)
+	for i := 0; i < nEpochs; i++ {
+		epochs(c, pool, i)
 	}
 	nHist := c.N(60, 500)
 	for i := 0; i < nHist; i++ {
